@@ -2,7 +2,7 @@
 //! files; evidence; known findings; watchdog.
 
 use crate::choice::{mix, Choices};
-use crate::world::{BudgetExceeded, Counters, IoEv, World, W};
+use crate::world::{BudgetExceeded, ContractViolation, Counters, IoEv, World, W};
 use serde_json::{json, Value};
 use std::cell::RefCell;
 use std::collections::{BTreeMap, HashSet};
@@ -81,6 +81,8 @@ pub fn install_panic_hook() {
             s.clone()
         } else if info.payload().downcast_ref::<BudgetExceeded>().is_some() {
             "budget exceeded".to_string()
+        } else if let Some(cv) = info.payload().downcast_ref::<ContractViolation>() {
+            cv.0.clone()
         } else {
             "<non-string panic payload>".to_string()
         };
@@ -122,6 +124,11 @@ pub fn execute(prop: &Property, sc: &Scenario, ch: Choices, keep_trace: bool) ->
                         "progress budget exhausted after {} I/O events: the consumer keeps calling the stream without finishing",
                         w.ev.get()
                     ),
+                })
+            } else if let Some(cv) = payload.downcast_ref::<ContractViolation>() {
+                Err(Violation {
+                    clause: prop.panic_clause.to_string(),
+                    message: format!("the code under test broke an I/O trait contract (would panic or corrupt data with std's BufReader): {}", cv.0),
                 })
             } else if loc.starts_with("src/") || loc.starts_with("sim/src/") {
                 harness_bug = Some(format!("harness panic at {}: {}", loc, msg));
@@ -366,6 +373,7 @@ pub fn run_batch(prop: &'static Property, cfg: &BatchCfg) -> BatchOut {
                     let v = json!({
                         "property": prop.id, "scenario": sc.name, "clause": prop.livelock_clause,
                         "seed": seed, "run": run, "choices": Value::Null,
+                        "tier": if crate::world::thorough() { "thorough" } else { "quick" },
                         "message": format!("run did not finish within {} s of wall-clock (normal: < 1 ms): CPU loop without I/O", hang_ms / 1000),
                     });
                     let _ = std::fs::create_dir_all(format!("{}/{}", replay_dir, prop.id));
